@@ -17,6 +17,11 @@ CFG = {'assumptions': ['monotone fragment'],
               'name': 'h_egg_t3_default',
               'prefix': 'cases_egg'},
              {'bin': 'h_egg',
+              'env': {'EGGLOG_PARALLEL_REBUILD_CUTOFF': '0', 'EGGLOG_PARALLEL_TABLE_OP_CUTOFF': '0'},
+              'extra': ['--prop', 'C06', '--alt-threads', '2', '--cases', '30', '--big-tables'],
+              'name': 'h_egg_t2_rebuild0',
+              'prefix': 'cases_egg'},
+             {'bin': 'h_egg',
               'env': {'EGGLOG_PARALLEL_ACTION_BATCH_SIZE': '1',
                       'EGGLOG_PARALLEL_FREE_JOIN_FORK_DEPTH': '4',
                       'EGGLOG_PARALLEL_TABLE_OP_CUTOFF': '0'},
